@@ -166,6 +166,13 @@ func DoBatchWithOptions(ctx context.Context, op Operation, r DoBatchRing, keys [
 		return err
 	}
 
+	// Nothing to send: no callback will ever signal completion, so return now instead of waiting
+	// for the context to end.
+	if len(keys) == 0 {
+		o.Cleanup()
+		return nil
+	}
+
 	tracker := batchTracker{
 		done: make(chan struct{}, 1),
 		err:  make(chan error, 1),
